@@ -116,6 +116,13 @@ def configs(tier):
 def cases(tier, seed):
     for i, c in enumerate(configs(tier)):
         yield ['sched', i, tier]
+    # (c) real processes, every completion order forced with barrier files
+    for perm in itertools.permutations('ABC'):
+        for N in ((3,) if tier == 'quick' else (3, 4)):
+            for v in (0, 2):
+                yield ['realorder', list(perm), [N, v]]
+    for N in (1, 2):
+        yield ['realorder', ['A', 'B', 'C'], [N, 0]]
     # (b) worlds
     K = 1 if tier == 'quick' else 2
     menu = ['fail', 'error', 'uxs', 'sub:1,1,0', 'skip_body', 'body+teardown',
@@ -466,7 +473,70 @@ def run_worlds(shape, block):
     return evals, viol
 
 
+def real_order_spec(perm):
+    """Three independent layers; the layer perm[i] only finishes after
+    perm[i-1] has finished (barrier files), whatever the start order."""
+    layers = [{'n': L, 'b': [], 'k': 'c', 'h': list(worlds.HOOKS_SD)} for L in 'ABC']
+    tests = []
+    for L in 'ABC':
+        i = perm.index(L)
+        acts = []
+        if i > 0:
+            acts.append(['wait', 'done_' + perm[i - 1], 30])
+        tests.append({'n': 'p' + L, 'l': L, 's': 'pass', 'acts': acts,
+                      'w': [['o', 'TOKEN-%s-1\n' % L, False]]})
+        tests.append({'n': 'q' + L, 'l': L, 's': 'fail' if L == 'B' else 'pass',
+                      'acts': [['touch', 'done_' + L]],
+                      'w': [['o', 'TOKEN-%s-2\n' % L, False]]})
+    return {'layers': layers, 'tests': tests}
+
+
+def run_realorder(perm, N, v):
+    spec = real_order_spec(perm)
+    argv = ['-j%d' % N] + (['-' + 'v' * v] if v else [])
+    seq = runrt.run_cli(spec, ['-' + 'v' * v] if v else [], timeout=120, barrier=False)
+    par = runrt.run_cli(spec, argv, timeout=120)
+    viol = []
+    sig = {'part': 'realorder', 'N': N, 'v': v}
+    d = 'real processes, forced completion order %s, %s: ' % (''.join(perm), argv)
+    if par.rc == 'timeout' or seq.rc == 'timeout':
+        viol.append(('parent_hangs', sig, d + par.text[-600:]))
+        return 2, viol
+    if any(ev[1] == 'barrier_timeout' for ev in par.trace):
+        viol.append(('forced_order_not_reached', sig, d + 'a barrier timed out: the children did not run concurrently enough'))
+    # completion order really was the forced one
+    ends = [ev[2][1:] for ev in par.trace if ev[1] == 't' and ev[3] == 'body' and ev[2].startswith('q')]
+    if N >= 3 and ends != list(perm):
+        viol.append(('harness_order_not_forced', sig, d + 'tests finished in order %s' % ends))
+    secs_p = runrt.parse_sections(par.text)
+    secs_s = runrt.parse_sections(seq.text)
+    names_p = [n for n, _ in secs_p if n != '.EmptyLayer']
+    names_s = [n for n, _ in secs_s]
+    if names_p != names_s:
+        viol.append(('layer_blocks_out_of_order', sig, d + '%s vs sequential %s' % (names_p, names_s)))
+    for name, body in secs_p:
+        L = name.rsplit('.', 1)[-1]
+        for other in 'ABC':
+            if other != L and ('TOKEN-%s-' % other) in body:
+                viol.append(('output_of_other_layer_inside_block', sig, d + 'token of %s inside the block of %s' % (other, name)))
+    if par.rc != seq.rc:
+        viol.append(('verdict_differs', sig, d + 'exit %r vs sequential %r' % (par.rc, seq.rc)))
+    tp, ts = runrt.TOTAL_RE.search(par.text), runrt.TOTAL_RE.search(seq.text)
+    if not tp or not ts or tp.groups() != ts.groups():
+        viol.append(('totals_differ', sig, d + '%s vs %s' % (tp and tp.group(0), ts and ts.group(0))))
+    ex_p = sorted(ev[2] for ev in par.trace if ev[1] == 't' and ev[3] == 'body')
+    ex_s = sorted(ev[2] for ev in seq.trace if ev[1] == 't' and ev[3] == 'body')
+    if ex_p != ex_s:
+        viol.append(('executed_tests_differ', sig, d + '%s vs %s' % (ex_p, ex_s)))
+    return 2, viol
+
+
 def run_case(case):
+    if case[0] == 'realorder':
+        evals, vs = run_realorder(case[1], case[2][0], case[2][1])
+        viol = [{'clause': c, 'sig': s, 'detail': d} for c, s, d in vs]
+        return {'evals': evals, 'nontrivial': evals, 'violations': viol, 'outcome': 'realorder', 'nogate': True,
+                'counters': {'real_process_runs': evals}}
     if case[0] == 'worlds':
         evals, vs = run_worlds(case[1], case[2])
         viol = [{'clause': c, 'sig': s, 'detail': d} for c, s, d in vs[:20]]
